@@ -13,12 +13,13 @@ LX == TrLeaf(<<"x">>)
 LY == TrLeaf(<<"y">>)
 St(k, p, m, f, e) == [TrStk(k, e) EXCEPT !.paren = p, !.mtx = m, !.form = f]
 Cd(ex) == TrCnd(<<"k">>, "Eq", ex)
+CdP(ex) == [Cd(ex) EXCEPT !.paren = TRUE]          \* a parenthetical Condition
 
 \* chains: up to three nested single-child levels with every kind / paren / mutex mix
 \* presentation variants of a level: plain, case-folded, with a symbol (none changes what Reveal may do)
 Lvl == {<<k, p, m, v>> : k \in {"AND", "NOT"}, p \in BOOLEAN, m \in BOOLEAN, v \in {"plain", "fold", "sym"}}
 LvStk(a, e) == [St(a[1], a[2], a[3], "native", e) EXCEPT !.fold = (a[4] = "fold"), !.sym = IF a[4] = "sym" THEN <<"!">> ELSE <<>>]
-Bottoms == {St("OR", FALSE, FALSE, "native", <<LX, LY>>), St("OR", TRUE, FALSE, "native", <<LX>>), Cd(LX),
+Bottoms == {St("OR", FALSE, FALSE, "native", <<LX, LY>>), St("OR", TRUE, FALSE, "native", <<LX>>), Cd(LX), CdP(LX),
             Cd(St("LIST", FALSE, TRUE, "native", <<LX, LY>>)), LX}
 Chain1 == {LvStk(a, <<b>>) : a \in Lvl, b \in Bottoms}
 Chain2 == {LvStk(a, <<c>>) : a \in {x \in Lvl : x[4] = "plain" \/ x[1] = "NOT"}, c \in Chain1}
@@ -27,7 +28,7 @@ FamChain == {St("AND", FALSE, m, "native", <<c, LY>>) : c \in Chain2, m \in BOOL
 
 \* wide: two children, each a small wrapper or a Condition holding one
 W1 == {St(k, p, FALSE, "native", e) : k \in {"AND", "NOT", "LIST"}, p \in BOOLEAN,
-                                       e \in {<<LX>>, <<LX, LY>>, <<>>, <<Cd(LX)>>, <<St("OR", FALSE, FALSE, "native", <<LX>>)>>,
+                                       e \in {<<LX>>, <<LX, LY>>, <<>>, <<Cd(LX)>>, <<CdP(LX)>>, <<St("OR", FALSE, FALSE, "native", <<LX>>)>>,
                                               <<St("OR", TRUE, FALSE, "native", <<LX, LY>>)>>}}
 W2 == W1 \cup {Cd(w) : w \in {St("AND", FALSE, FALSE, "native", <<St("OR", FALSE, FALSE, "native", <<LX, LY>>)>>),
                                St("AND", FALSE, TRUE, "native", <<Cd(LY)>>)}}
@@ -36,10 +37,18 @@ FamWide == {St("AND", FALSE, FALSE, "native", <<a, b>>) : a \in W2, b \in W2 \cu
 
 \* alias forms of wrappers and of their single child
 FamAlias == {St("AND", FALSE, FALSE, "native", <<St("OR", FALSE, FALSE, f1, <<St("LIST", FALSE, FALSE, f2, <<LX, LY>>)>>), LY,
-                                                St("AND", FALSE, FALSE, f2, <<[Cd(LX) EXCEPT !.form = f1]>>)>>) :
-               f1 \in {"native", "alias", "walias", "ptr"}, f2 \in {"native", "alias", "walias", "ptr"}}
+                                                St("AND", FALSE, FALSE, f2, <<[Cd(LX) EXCEPT !.form = f1, !.paren = cp]>>)>>) :
+               f1 \in {"native", "alias", "walias", "ptr"}, f2 \in {"native", "alias", "walias", "ptr"}, cp \in BOOLEAN}
 
-Cases == CASE FAMILY = "chain" -> FamChain [] FAMILY = "wide" -> FamWide [] FAMILY = "alias" -> FamAlias
+\* index options (forward / negative addressing) on the receiver and on a nested stack: Reveal walks by Index()
+Inner2 == {St("OR", FALSE, FALSE, "native", <<LX, LY>>), St("OR", FALSE, FALSE, "native", <<St("LIST", FALSE, FALSE, "native", <<LX, LY>>)>>),
+           St("AND", FALSE, FALSE, "native", <<St("OR", FALSE, FALSE, "native", <<Cd(LX)>>)>>), St("NOT", FALSE, FALSE, "native", <<LX>>), Cd(LY)}
+FamIdx == {[St("AND", FALSE, m, "native", es) EXCEPT !.fwd = f, !.neg = ng] :
+             m \in BOOLEAN, f \in BOOLEAN, ng \in BOOLEAN, es \in {<<a, b>> : a \in Inner2 \cup {LX}, b \in Inner2}}
+      \cup {St("AND", FALSE, FALSE, "native", <<LX, [St("OR", FALSE, m, "native", <<LY, b>>) EXCEPT !.fwd = f, !.neg = ng]>>) :
+             m \in BOOLEAN, f \in BOOLEAN, ng \in BOOLEAN, b \in Inner2}
+
+Cases == CASE FAMILY = "chain" -> FamChain [] FAMILY = "wide" -> FamWide [] FAMILY = "alias" -> FamAlias [] FAMILY = "idx" -> FamIdx
 
 VARIABLE cs
 Init == cs \in Cases
